@@ -51,6 +51,8 @@ def main():
                 if os.path.isdir(p):
                     shutil.copytree(p, os.path.join(repo, f), dirs_exist_ok=True)
                     continue
+                if not f.endswith(".go"):
+                    continue  # supporting material (partial patches, notes): archived, not built
                 txt = open(p, errors="replace").read()
                 m = re.search(r"^// *seeded-demo-dir: *(\S+)", txt, re.M)
                 dest = m.group(1) if m else None
@@ -134,10 +136,12 @@ def main():
         return 0
     finally:
         shutil.rmtree(d, ignore_errors=True)
+        import hashlib
+        tag = hashlib.sha256(os.path.join(d, "repo").encode()).hexdigest()[:10]  # the driver's name for this scratch copy
         for f in os.listdir("/verif/harness"):
-            if f.startswith("go.alt-"):
+            if f.startswith("go.alt-" + tag):
                 os.remove(os.path.join("/verif/harness", f))
-        subprocess.run("rm -f /verif/.bin/alt-*", shell=True)
+        subprocess.run("rm -f /verif/.bin/alt-%s-*" % tag, shell=True)
 
 
 if __name__ == "__main__":
